@@ -559,7 +559,20 @@ class PDFStandardSecurityHandlerV4(PDFStandardSecurityHandler):
             modes.CBC(initialization_vector),
             backend=default_backend(),
         )  # type: ignore
-        return cipher.decryptor().update(ciphertext)  # type: ignore
+        plaintext = cipher.decryptor().update(ciphertext)  # type: ignore
+        return self._remove_aes_padding(plaintext)
+
+    @staticmethod
+    def _remove_aes_padding(data: bytes) -> bytes:
+        """Strip the PKCS#7 padding that is added before AES-CBC encryption
+
+        Data that does not end in valid padding is returned unchanged.
+        """
+        if len(data) > 0 and len(data) % 16 == 0:
+            n = data[-1]
+            if 1 <= n <= 16 and data.endswith(bytes((n,)) * n):
+                return data[:-n]
+        return data
 
 
 class PDFStandardSecurityHandlerV5(PDFStandardSecurityHandlerV4):
@@ -683,7 +696,8 @@ class PDFStandardSecurityHandlerV5(PDFStandardSecurityHandlerV4):
             modes.CBC(initialization_vector),
             backend=default_backend(),
         )  # type: ignore
-        return cipher.decryptor().update(ciphertext)  # type: ignore
+        plaintext = cipher.decryptor().update(ciphertext)  # type: ignore
+        return self._remove_aes_padding(plaintext)
 
 
 class PDFDocument:
